@@ -233,6 +233,12 @@ def gen_stack(rng, rs, spec, names, priced, prefix, opts, is_child=False):
     elif sel == "setstat_n":
         fn = prefix + "stat"
         spec["extras"][fn] = _rand_frame(rs, nd, names, "stat", rng)
+        if rng.random() < 0.35:
+            # scores published on some dates only (weekly / irregular): now - lag may fall into a gap
+            rows = sorted(set(range(0, nd, rng.choice([2, 3, 5]))) | ({rng.randrange(nd)} if rng.random() < 0.5 else set()))
+            f = spec["extras"][fn]
+            f["rows"] = rows
+            f["values"] = [f["values"][r] for r in rows]
         st += [{"a": "SelectAll"}, {"a": "SetStat", "args": [fn], "kw": {"lag": lag}},
                {"a": "SelectN", "args": [rng.choice([1, 2, 3, 0.5])], "kw": {"sort_descending": rng.random() < 0.5, "filter_selected": True, "all_or_none": rng.random() < 0.2}}]
     elif sel == "regex":
